@@ -305,14 +305,27 @@ def expansion_args(F):
     it = F.impl_fn("std::iter::IntoIterator", TOKEN, "into_iter")
     pr = P.Prov(it)
     res = {}
-    for bi, t in it.calls():
-        if bi not in it.cfg.reachable:
-            continue
+    # per path when the function is loop-free (arms merged behind a `match` that computes the bounds are told apart by the
+    # path), else per site
+    from sa import dtree
+    sites = []
+    try:
+        paths_, _p0 = dtree.enumerate_paths(it, max_paths=400)
+        for p_ in paths_:
+            if p_.end != "return":
+                continue
+            pp_ = dtree.PathProv(it, p_)
+            sites += [(bi, it.blocks[bi]["term"], pp_) for bi in p_.blocks if it.blocks[bi]["term"]["k"] == "call"]
+    except dtree.NotLoopFree:
+        sites = [(bi, t, pr) for bi, t in it.calls() if bi in it.cfg.reachable]
+    for bi, t, pr_site in sites:
         cp = I.callee_path(t)
         if not cp.startswith("card::rank_range::RankRange::"):
             continue
         ctor = cp.rsplit("::", 1)[-1]
-        a, b = [P.strip(x) for x in (pr.operand(t["args"][0]), pr.operand(t["args"][1]))] if len(t["args"]) == 2 else (None, None)
+        a, b = [P.strip(x) for x in (pr_site.operand(t["args"][0]), pr_site.operand(t["args"][1]))] if len(t["args"]) == 2 else (None, None)
+        if (bi, a, b) in res:
+            continue
         # which arm: dominating discriminant switches on self.kind and the rank pair
         arm = []
         for (src, lab, dst) in it.cfg.dominating_edges(bi):
@@ -322,7 +335,7 @@ def expansion_args(F):
             on = pr.operand(tt["on"])
             if on[0] == "discr":
                 arm.append((P.show_key(P.strip(on[1]), 60), lab, [v for v, _ in tt["arms"]], src))
-        res[bi] = dict(ctor=ctor, a=a, b=b, arm=arm, line=it.blocks[bi]["line"])
+        res[(bi, a, b)] = dict(ctor=ctor, a=a, b=b, arm=arm, line=it.blocks[bi]["line"])
     return it, pr, res
 
 
